@@ -1,2 +1,5 @@
+//! Monitors and instrumented I/O shared by the upper-layer checks.
 pub mod probe;
 pub mod failio;
+pub mod transport;
+pub mod net;
